@@ -74,6 +74,19 @@ Proof.
   - apply nth_error_None in E. lia.
 Qed.
 
+Lemma entry_eqb_eq : forall a b : entry, entry_eqb a b = true <-> a = b.
+Proof.
+  intros [a1 a2] [b1 b2]. unfold entry_eqb. cbn [fst snd]. rewrite andb_true_iff, !Nat.eqb_eq.
+  split; [intros [-> ->]; reflexivity|intros H; injection H as -> ->; split; reflexivity].
+Qed.
+
+Lemma log_eqb_eq : forall a b : elog, log_eqb a b = true <-> a = b.
+Proof.
+  induction a as [|x a IH]; intros [|y b]; cbn [log_eqb]; split; intros H; try discriminate; try reflexivity.
+  - apply andb_true_iff in H as [H1 H2]. apply entry_eqb_eq in H1. apply IH in H2. subst. reflexivity.
+  - injection H as -> ->. apply andb_true_iff. split; [apply entry_eqb_eq; reflexivity|apply IH; reflexivity].
+Qed.
+
 (* ------------------------------------------------------------------ prefixes *)
 
 Lemma firstn_agree_le : forall (A : Type) (a b : list A) k j,
@@ -104,6 +117,15 @@ Proof.
   intros A l a. revert l. induction a as [|a IH]; intros l b; [reflexivity|].
   destruct l as [|x l]; [cbn; destruct b; reflexivity|].
   cbn [Nat.add firstn skipn app]. rewrite IH. reflexivity.
+Qed.
+
+Lemma is_segment_spec : forall ents idx (l : elog),
+  is_segment ents idx l = true ->
+  firstn idx l ++ ents = firstn (idx + length ents) l /\ idx + length ents <= length l.
+Proof.
+  intros ents idx l H. unfold is_segment in H. apply andb_true_iff in H as [H1 H2].
+  apply log_eqb_eq in H1. apply Nat.leb_le in H2. split; [|exact H2].
+  rewrite firstn_plus. rewrite <- H1. reflexivity.
 Qed.
 
 (* ------------------------------------------------------------------ well-formed logs
